@@ -169,7 +169,7 @@ function failures(ev, ref, names, thorough, reducedEnvs, onlyKind) {
     n++
     if (!sameOutcome(exp, got)) {
       // the recorded deviation: spreading a value that is not an array (generated as [].concat)
-      let kind = flags.nonArraySpread ? 'lenient-array-spread' : kindOf(exp, got)
+      let kind = flags.nonArraySpread ? 'lenient-array-spread' : flags.holeySpread && !exp.err && !got.err ? 'spread-keeps-holes' : kindOf(exp, got)
       if (!flags.nonArraySpread && got.err && !exp.err && flags.SITE) {
         // the recorded deviation: a hoisted position (condition of ?:, dynamic index) that JavaScript does not reach
         // (short-circuit, untaken branch) is evaluated by the generated code anyway, and evaluating it throws
@@ -356,6 +356,10 @@ function runShard(info, thorough) {
           if (v === 0) minimalFailed = true
           if (f.kind === 'hoisted-position-evaluated-eagerly') {
             rep.violation('C03|hoisted-position-evaluated-eagerly', `a condition of ?: or a dynamic index that JavaScript does not reach is evaluated anyway: {{ ${text} }} with ${envText(f.env, names)} gives ${showOutcome(f.got)}, JavaScript gives ${showOutcome(f.exp)}`, { engine: 'c03', expr: text, tree: e, env: f.env, original: text })
+            continue
+          }
+          if (f.kind === 'spread-keeps-holes') {
+            rep.violation('C03|spread-keeps-holes', `spread of an array with holes: {{ ${text} }} with ${envText(f.env, names)} gives ${showOutcome(f.got)}, JavaScript gives ${showOutcome(f.exp)}`, { engine: 'c03', expr: text, tree: e, env: f.env, original: text })
             continue
           }
           if (f.kind === 'lenient-array-spread') {
